@@ -538,13 +538,13 @@ def main():
         src.append(EMIT[it.PREFIX](it))
     src.append("}\n#[cfg(feature = \"thorough\")]\npub use thorough_items::*;")
     def visit(name, lst):
-        s = "pub fn %s<V: harness::Visitor>(v: &mut V) {\n" % name
+        s = "pub fn %s() -> Vec<Box<dyn harness::ShapeDyn>> {\n    vec![\n" % name
         for t in lst:
-            s += "    v.visit::<%s>(%r);\n".replace("%r", '"%s"') % (t.rust(), t.spec())
-        return s + "}\n"
-    src.append(visit("visit_quick", quick))
-    src.append("#[cfg(feature = \"thorough\")]\n" + visit("visit_thorough_extra", extra))
-    src.append("#[cfg(not(feature = \"thorough\"))]\npub fn visit_thorough_extra<V: harness::Visitor>(_v: &mut V) {}\n")
+            s += "        Box::new(harness::ShapeOf::<%s>::new(\"%s\")),\n" % (t.rust(), t.spec())
+        return s + "    ]\n}\n"
+    src.append(visit("quick_shapes", quick))
+    src.append("#[cfg(feature = \"thorough\")]\n" + visit("thorough_extra_shapes", extra))
+    src.append("#[cfg(not(feature = \"thorough\"))]\npub fn thorough_extra_shapes() -> Vec<Box<dyn harness::ShapeDyn>> { vec![] }\n")
     src.append("pub const HAS_THOROUGH: bool = cfg!(feature = \"thorough\");\n")
     src.append("pub const N_QUICK: usize = %d;\npub const N_THOROUGH: usize = %d;\n" % (len(quick), len(quick) + len(extra)))
     open(out, "w").write("\n".join(src))
